@@ -416,15 +416,15 @@ func c19CheckOne(parse c19Parser, kind c19Kind, fs []c19Field, decodeErr bool, f
 	return c19Out{cls, pred}, nil
 }
 
+var c19Labels = map[string]bool{"method": true, "host": true, "uri": true, "proto": true, "cl": true, "header": true, "trailer": true,
+	"status": true, "path": true, "authority": true, "scheme": true, "protocol": true}
+
 // c19DiffTag names the first "label=" segment in which two renderings differ.
 func c19DiffTag(got, want string) string {
 	seg := func(s string) (out []string) {
 		for _, t := range strings.Split(s, " ") {
 			j := strings.IndexByte(t, '=')
-			isLabel := j > 0
-			for k := 0; isLabel && k < j; k++ {
-				isLabel = t[k] >= 'a' && t[k] <= 'z'
-			}
+			isLabel := j > 0 && c19Labels[t[:j]]
 			if isLabel || len(out) == 0 {
 				out = append(out, t)
 			} else {
